@@ -194,6 +194,17 @@ func (v *Validator) VerifyNewConfirms(block *types.Block, sigList []types.SignDa
 	hash := block.Hash()
 	validConfirms := make([]types.SignData, 0, len(sigList))
 	var lastErr error = nil
+	// nodes that already signed this block: the miner and the signers of the stored confirms. One node
+	// can produce many byte strings for one hash ((r, N-s, v^1), other nonces), so compare signers.
+	signers := make(map[string]bool, len(block.Confirms)+len(sigList)+1)
+	if minerID, err := block.SignerNodeID(); err == nil {
+		signers[string(minerID)] = true
+	}
+	for _, oldSig := range block.Confirms {
+		if oldID, err := oldSig.RecoverNodeID(hash); err == nil {
+			signers[string(oldID)] = true
+		}
+	}
 
 	for _, sig := range sigList {
 		// 判断validConfirms中是否已经存在sig了
@@ -219,6 +230,11 @@ func (v *Validator) VerifyNewConfirms(block *types.Block, sigList []types.SignDa
 			log.Warn("Duplicate confirm", "hash", hash.Hex(), "signer", common.ToHex(nodeID[:4]))
 			continue
 		}
+		if signers[string(nodeID)] {
+			log.Warn("Duplicate confirm signer", "hash", hash.Hex(), "signer", common.ToHex(nodeID[:4]))
+			continue
+		}
+		signers[string(nodeID)] = true
 		validConfirms = append(validConfirms, sig)
 	}
 	return validConfirms, lastErr
